@@ -177,6 +177,71 @@ def part4(preset, src, k, v):
     return None
 
 
+ALL_DOC = ("# T\n\n*a* **b** `c` [l](http://x.y \"t\") ![i](s) <b>h</b> <http://a.b> &amp; \\* ~~s~~\n\n- i1\n- i2\n\n> q\n\n    code\n\n"
+           "```py\nf\n```\n\n| a | b |\n|---|---|\n| 1 | 2 |\n\ntitle\n===\n\n***\n\n<div>x</div>\n\n[r]: /u\n\n[r] a  \nb\n")
+
+
+def part5():
+    """kinds need a producer in the configuration currently in force, however it was reached: after reset_rules
+    blocks, a second configure, enableOnly on a ruler, enable / disable after earlier parses"""
+    from markdown_it import MarkdownIt
+
+    def bad(md, how):
+        if not supported(md):
+            return None
+        try:
+            ts = guarded(md.parse, ALL_DOC)
+        except Exception:  # noqa: BLE001
+            return None
+        extra = kinds_of(ts) - allowed_kinds(md)
+        if extra:
+            return {"what": "token kinds without an enabled producer after: " + how, "kinds": sorted(extra), "active": md.get_active_rules()}
+        return None
+    for preset in ("commonmark", "js-default", "zero"):
+        def fresh():
+            md = MarkdownIt(preset, {"linkify": False})
+            md.parse(ALL_DOC)
+            return md
+        md = fresh()
+        with md.reset_rules():
+            md.enable(["table", "strikethrough", "emphasis", "heading", "list"])
+            md.parse(ALL_DOC)
+        d = bad(md, f"{preset}: parse; with reset_rules(): enable(...); parse")
+        if d:
+            return d
+        md = fresh()
+        md.configure("zero")
+        d = bad(md, f"{preset}: parse; configure('zero')")
+        if d:
+            return d
+        md = fresh()
+        md.block.ruler.enableOnly(["paragraph"])
+        md.inline.ruler.enableOnly(["text"])
+        d = bad(md, f"{preset}: parse; block.ruler.enableOnly(['paragraph']); inline.ruler.enableOnly(['text'])")
+        if d:
+            return d
+        for name in ("table", "emphasis", "blockquote", "code", "backticks", "link", "heading", "fence", "html_block", "entity"):
+            md = fresh()
+            try:
+                md.enable(name)
+                md.parse(ALL_DOC)
+                md.disable(name)
+            except Exception:  # noqa: BLE001
+                continue
+            d = bad(md, f"{preset}: parse; enable({name!r}); parse; disable({name!r})")
+            if d:
+                return d
+        md = fresh()
+        try:
+            md.inline.ruler.enableOnly(["no_such_rule"], True)
+        except Exception:  # noqa: BLE001
+            pass
+        d = None if not supported(md) else bad(md, f"{preset}: parse; inline.ruler.enableOnly(['no_such_rule'], True)")
+        if d:
+            return d
+    return None
+
+
 def run(ctx) -> int:
     rep: Reporter = ctx["rep"]
     tier, seed, proofs = ctx["tier"], ctx["seed"], ctx["proofs"]
@@ -184,7 +249,7 @@ def run(ctx) -> int:
     q = tier == "quick"
     cases = [(dict(configs.random_config(rng), ruler2_off=[]), "parse", docs.random_doc(rng), None) for _ in range(400 if q else 8000)]
     n_run, disagreements, kn, kbad, lines = pipecheck.correspond(cases, "c10")
-    count = {"kinds": 0, "conservative": 0, "definitions": 0, "routes": 0}
+    count = {"kinds": 0, "conservative": 0, "definitions": 0, "routes": 0, "histories": 48}
 
     def probe(r, scale):
         for k in range(int(700 * scale)):
@@ -220,14 +285,16 @@ def run(ctx) -> int:
             if d:
                 return {"src": src, "part": 4, **d}
         return None
-    direct = probe(rng, 1 if q else 20)
+    direct = part5()
+    if direct is None:
+        direct = probe(rng, 1 if q else 20)
     conclude(rep, proofs, direct, "switch-effect", disagreements, kbad,
              lambda: probe(rng_for("C10", seed, "search"), 4 if q else 40),
              "whole pipeline under random rule subsets: model and implementation differ")
     cov = proof_cov("C10", proofs, ["kinds_need_producer, false_rule_removable, definitions_only_add and the OptionsDict routes are decided on the implementation in this run; proved so far: the rule-level inertness lemmas (partial)"])
     cov.update({
         "evaluations": n_run + sum(count.values()), "distinct_nontrivial": len(set(lines)) + sum(count.values()),
-        "rule": "random rule subsets from each preset (block, inline, core optional rules on/off) x generated documents: (1) token kinds vs the producer map of the enabled rules (html rules only with options.html, ruler2 partners), (2) table / strikethrough on vs off on inputs without '|' / '~~' incl. paragraph + delimiter-row-like lines, (3) inline_definitions / store_labels on vs off: tokens modulo definition tokens and label meta, env, HTML modulo line breaks after tags, (4) each option by constructor, item assignment, attribute assignment",
+        "rule": "random rule subsets from each preset (block, inline, core optional rules on/off) x generated documents: (1) token kinds vs the producer map of the enabled rules (html rules only with options.html, ruler2 partners), (2) table / strikethrough on vs off on inputs without '|' / '~~' incl. paragraph + delimiter-row-like lines, (3) inline_definitions / store_labels on vs off: tokens modulo definition tokens and label meta, env, HTML modulo line breaks after tags, (4) each option by constructor, item assignment, attribute assignment, (5) kinds vs producers after management histories on an instance that has already parsed (reset_rules blocks, second configure, ruler.enableOnly, enable/disable)",
         "samples": [{"src": cases[0][2], "config": cases[0][0]}], "traces_validated_against_impl": n_run, "implementation_probes": count,
         "in_kernel_cases": kn, "in_kernel_mismatches": len(kbad), "disagreements": len(disagreements),
     })
